@@ -18,6 +18,11 @@ func variants(mode string) []struct {
 			RPB: sdk.NewCoins(mc.C("eth", 1)), Total: sdk.NewCoins(mc.C("eth", 7)), Mode: mode}, 6, 7},
 		{Variant{Name: "creator-ops", Farmers: []string{"A", "B"}, StakeAmts: []int64{1, 3},
 			RPB: sdk.NewCoins(mc.C("eth", 3)), Total: sdk.NewCoins(mc.C("eth", 20)), Creator: true, Mode: mode}, 5, 7},
+		// budgets that are exhausted exactly at the end height (nothing / only one denomination left to refund)
+		{Variant{Name: "exact-budget", Farmers: []string{"A", "B"}, StakeAmts: []int64{1, 2},
+			RPB: sdk.NewCoins(mc.C("eth", 2)), Total: sdk.NewCoins(mc.C("eth", 4)), Mode: mode}, 6, 8},
+		{Variant{Name: "exact-and-remainder", Farmers: []string{"A", "B"}, StakeAmts: []int64{1, 2},
+			RPB: sdk.NewCoins(mc.C("eth", 2), mc.C("btc", 3)), Total: sdk.NewCoins(mc.C("eth", 4), mc.C("btc", 10)), Mode: mode}, 6, 8},
 		{Variant{Name: "two-denoms-future-start", Farmers: []string{"A", "B"}, StakeAmts: []int64{2, 3},
 			RPB: sdk.NewCoins(mc.C("eth", 2), mc.C("btc", 3)), Total: sdk.NewCoins(mc.C("eth", 11), mc.C("btc", 10)),
 			StartDelta: 2, Creator: true, BigStake: true, Mode: mode}, 5, 7},
